@@ -138,19 +138,20 @@ def c05_2(ck, prog):
     fd_gate(prog, r, fn, 'addressed_recipient', sinks)
     # send_one_message
     som = prog.fn('send_one_message', 'bus/dispatch.c')
+    rcp = lib.recipient_param(som)
 
     def sinks2(ev, ctx):
         if ev['ev'] == 'call' and ev['e'].get('callee') == 'bus_transaction_send':
-            if not is_ref(ev['e']['args'][2], 'connection'):
+            if not is_ref(ev['e']['args'][2], rcp):
                 return 'bus_transaction_send(%s)' % estr(ev['e']['args'][2])
             return 'bus_transaction_send(connection)'
         return None
     gate2 = lib.Guard('policy gate(proposed=connection)',
                       lambda c, ctx: c.get('callee') == 'bus_context_check_security_policy'
-                      and is_ref(c['args'][4], 'connection') and is_ref(c['args'][3], 'addressed_recipient')
+                      and is_ref(c['args'][4], rcp) and is_ref(c['args'][3], 'addressed_recipient')
                       and lib.arg_is_param(c, 5, 'message') and lib.arg_is_param(c, 2, 'sender'))
     lib.must_precede(som, r, sinks2, [gate2])
-    fd_gate(prog, r, som, 'connection', sinks2)
+    fd_gate(prog, r, som, rcp, sinks2, label='connection')
 
     # stamps
     r2 = ck.rule('C05.2b', 'recipient collection: stamp incremented, addressee stamped, a connection is '
@@ -254,14 +255,14 @@ def lib_list_ins():
     return {'_dbus_list_append', '_dbus_list_prepend', '_dbus_list_append_link', '_dbus_list_prepend_link'}
 
 
-def fd_gate(prog, r, fn, destvar, sinks):
+def fd_gate(prog, r, fn, destvar, sinks, label=None):
     """bus_transaction_send to destvar is reached only if the message has no fds
     or the destination can take them."""
     contains = {c['id'] for b, i, c in fn.calls('dbus_message_contains_unix_fds')
                 if lib.arg_is_param(c, 0, 'message')}
     can = {c['id'] for b, i, c in fn.calls('dbus_connection_can_send_type')
            if is_ref(c['args'][0], destvar) and is_int(c['args'][1], ord('h'))}
-    key = '%s:fd-capability(%s)' % (fn.name, destvar)
+    key = '%s:fd-capability(%s)' % (fn.name, label or destvar)
     if not contains or not can:
         r.violation(key, fn.name, fn.file, fn.line,
                     'the test dbus_message_contains_unix_fds(message) && !dbus_connection_can_send_type(%s, '
